@@ -22,6 +22,7 @@ struct Stats {
     resolver_calls: u64,
     resolver_ok: u64,
     resolver_err: u64,
+    history_steps: u64,
     cases: u64,             // (graph, subset) pairs
     multi_order_cases: u64, // pairs for which >1 distinct result order was observed
     max_orders: u64,
@@ -243,6 +244,153 @@ fn check_graph(n: usize, adj: &[u32], subsets: &[u32], repeats: u32, st: &mut St
     }
 }
 
+/// The same two routines used the way a long-lived caller uses them: ONE instance that is grown step by step and asked
+/// again after every step. Every answer is judged against the graph as it stands at that moment, so an answer that is
+/// remembered across a mutation (or state left behind by an earlier call) shows up as a wrong answer for the current graph.
+fn check_history(n: usize, adj: &[u32], st: &mut Stats, variant: u32) {
+    // ---- type-ordering routine: entries arrive one at a time
+    let mut g = TypeDependencyGraph::new();
+    let mut padj = vec![0u32; n];
+    let order: Vec<usize> = if variant % 2 == 0 { (0..n).collect() } else { (0..n).rev().collect() };
+    for &u in &order {
+        let deps: HashSet<String> = (0..n).filter(|v| adj[u] >> v & 1 == 1).map(name).collect();
+        g.add_dependencies(name(u), deps);
+        padj[u] = adj[u];
+        let reach = closure(n, &padj);
+        let s: u32 = (1u32 << n) - 1;
+        let req: HashSet<String> = (0..n).map(name).collect();
+        let out = g.topological_sort_types(&req);
+        st.sort_calls += 1;
+        st.history_steps += 1;
+        let mut seen = 0u32;
+        let mut pos = [usize::MAX; MAXV];
+        let mut bad: Option<String> = None;
+        for (i, nm) in out.iter().enumerate() {
+            let idx = nm[1..].parse::<usize>().unwrap_or(MAXV);
+            if idx >= n || seen >> idx & 1 == 1 {
+                bad = Some(format!("unknown-or-duplicate {}", nm));
+                break;
+            }
+            seen |= 1 << idx;
+            pos[idx] = i;
+        }
+        if bad.is_none() && seen != s {
+            bad = Some(format!("not-a-permutation-of-reach missing={:#b}", s & !seen));
+        }
+        if bad.is_none() {
+            'o: for a in 0..n {
+                for b in 0..n {
+                    let same = a == b || (reach[a] >> b & 1 == 1 && reach[b] >> a & 1 == 1);
+                    if padj[a] >> b & 1 == 1 && !same && pos[b] > pos[a] {
+                        bad = Some(format!("dependency-after-dependent {}->{}", a, b));
+                        break 'o;
+                    }
+                }
+            }
+        }
+        if let Some(b) = bad {
+            st.nviol += 1;
+            if st.violations.len() < 20 {
+                st.violations.push(format!("sort-history {} after-adding-entry {} result={:?} :: {} (same instance, asked after every added entry)", describe(n, &padj), u, out, b));
+            }
+        }
+    }
+    // ---- build-order resolver: nodes and edges arrive one at a time
+    let mk = |i: usize| DependencyNode {
+        name: name(i),
+        path: format!("src/{}.rs", i),
+        node_type: if i % 2 == 0 { DependencyNodeType::Struct } else { DependencyNodeType::Enum },
+    };
+    let mut r = DependencyResolver::new();
+    let mut present = 0u32;
+    let mut eadj = vec![0u32; n];
+    // steps: (is_edge, u, v)
+    let mut steps: Vec<(bool, usize, usize)> = Vec::new();
+    let edges: Vec<(usize, usize)> = (0..n).flat_map(|u| (0..n).filter(move |v| adj[u] >> v & 1 == 1).map(move |v| (u, v))).collect();
+    match variant % 3 {
+        0 => {
+            for &(u, v) in &edges { steps.push((true, u, v)); }
+            for u in 0..n { steps.push((false, u, 0)); }
+        }
+        1 => {
+            for u in 0..n { steps.push((false, u, 0)); }
+            for &(u, v) in edges.iter().rev() { steps.push((true, u, v)); }
+        }
+        _ => {
+            let mut ei = edges.iter();
+            for u in 0..n {
+                steps.push((false, u, 0));
+                if let Some(&(a, b)) = ei.next() { steps.push((true, a, b)); }
+            }
+            for &(a, b) in ei { steps.push((true, a, b)); }
+        }
+    }
+    for (is_edge, u, v) in steps {
+        if is_edge {
+            r.add_dependency(Dependency { from: mk(u), to: mk(v), dependency_type: DependencyType::Field });
+            present |= 1 << u | 1 << v;
+            eadj[u] |= 1 << v;
+        } else {
+            r.add_node(mk(u));
+            present |= 1 << u;
+        }
+        let reach = closure(n, &eadj);
+        let cyclic = (0..n).any(|a| reach[a] >> a & 1 == 1);
+        let res = r.resolve_build_order();
+        st.resolver_calls += 1;
+        st.history_steps += 1;
+        let mut bad: Option<String> = None;
+        match res {
+            Ok(order) => {
+                st.resolver_ok += 1;
+                if cyclic {
+                    bad = Some("ok-on-cyclic-graph".into());
+                } else {
+                    let mut seen = 0u32;
+                    let mut pos = [usize::MAX; MAXV];
+                    for (i, nd) in order.iter().enumerate() {
+                        let idx = nd.name[1..].parse::<usize>().unwrap_or(MAXV);
+                        if idx >= n || seen >> idx & 1 == 1 {
+                            bad = Some(format!("unknown-or-duplicate-node {}", nd.name));
+                            break;
+                        }
+                        seen |= 1 << idx;
+                        pos[idx] = i;
+                    }
+                    if bad.is_none() && seen != present {
+                        bad = Some(format!("node-set-differs missing={:#b} extra={:#b}", present & !seen, seen & !present));
+                    }
+                    if bad.is_none() {
+                        'p: for a in 0..n {
+                            for b in 0..n {
+                                if eadj[a] >> b & 1 == 1 && pos[b] > pos[a] {
+                                    bad = Some(format!("not-topological {}->{}", a, b));
+                                    break 'p;
+                                }
+                            }
+                        }
+                    }
+                }
+            }
+            Err(e) => {
+                st.resolver_err += 1;
+                if !cyclic {
+                    bad = Some(format!("err-on-acyclic-graph ({})", e));
+                }
+            }
+        }
+        if let Some(b) = bad {
+            st.nviol += 1;
+            if st.violations.len() < 20 {
+                st.violations.push(format!(
+                    "resolver-history {} nodes={:#b} after {} :: {} (same instance, asked after every mutation)",
+                    describe(n, &eadj), present, if is_edge { format!("add_dependency {}->{}", u, v) } else { format!("add_node {}", u) }, b
+                ));
+            }
+        }
+    }
+}
+
 struct Rng(u64);
 impl Rng {
     fn next(&mut self) -> u64 {
@@ -256,7 +404,7 @@ impl Rng {
 
 pub fn main(args: &[String]) {
     let mut st = Stats {
-        graphs: 0, cyclic: 0, acyclic: 0, sort_calls: 0, resolver_calls: 0, resolver_ok: 0, resolver_err: 0,
+        graphs: 0, cyclic: 0, acyclic: 0, sort_calls: 0, resolver_calls: 0, resolver_ok: 0, resolver_err: 0, history_steps: 0,
         cases: 0, multi_order_cases: 0, max_orders: 0, sum_orders: 0, violations: vec![], nviol: 0,
     };
     let mode = args.get(0).map(|s| s.as_str()).unwrap_or("");
@@ -274,6 +422,9 @@ pub fn main(args: &[String]) {
                     sample = describe(n, &adj);
                 }
                 check_graph(n, &adj, &subsets, repeats, &mut st, id % 2 == 1);
+                if n <= 3 || id % 7 == 0 {
+                    check_history(n, &adj, &mut st, (id % 6) as u32);
+                }
             }
         }
         "rand" => {
@@ -319,6 +470,7 @@ pub fn main(args: &[String]) {
                     sample = describe(n, &padj);
                 }
                 check_graph(n, &padj, &subsets, repeats, &mut st, i % 2 == 1);
+                check_history(n, &padj, &mut st, (i % 6) as u32);
             }
         }
         _ => {
@@ -328,8 +480,8 @@ pub fn main(args: &[String]) {
     }
     let viol: Vec<String> = st.violations.iter().map(|v| format!("{:?}", v)).collect();
     println!(
-        "{{\"graphs\":{},\"cyclic\":{},\"acyclic\":{},\"sort_calls\":{},\"resolver_calls\":{},\"resolver_ok\":{},\"resolver_err\":{},\"cases\":{},\"multi_order_cases\":{},\"max_orders\":{},\"sum_orders\":{},\"nviol\":{},\"sample\":{:?},\"violations\":[{}]}}",
-        st.graphs, st.cyclic, st.acyclic, st.sort_calls, st.resolver_calls, st.resolver_ok, st.resolver_err,
+        "{{\"graphs\":{},\"cyclic\":{},\"acyclic\":{},\"sort_calls\":{},\"resolver_calls\":{},\"resolver_ok\":{},\"resolver_err\":{},\"history_steps\":{},\"cases\":{},\"multi_order_cases\":{},\"max_orders\":{},\"sum_orders\":{},\"nviol\":{},\"sample\":{:?},\"violations\":[{}]}}",
+        st.graphs, st.cyclic, st.acyclic, st.sort_calls, st.resolver_calls, st.resolver_ok, st.resolver_err, st.history_steps,
         st.cases, st.multi_order_cases, st.max_orders, st.sum_orders, st.nviol, sample, viol.join(",")
     );
 }
